@@ -75,6 +75,7 @@ pub struct Exec {
     last_sketch_increments: u64,
     lookups: u64,
     adopt_weight: BTreeSet<u8>,
+    sweeper_held: bool,
     /// deadline of keys the sweeper removed (for the near-deadline statistics only)
     swept_deadline: BTreeMap<u8, Duration>,
     /// whether the physical-state comparison (hooks) is on
@@ -114,6 +115,7 @@ impl Exec {
             last_sketch_increments: 0,
             lookups: 0,
             adopt_weight: BTreeSet::new(),
+            sweeper_held: false,
             swept_deadline: BTreeMap::new(),
             deep: true,
         }
@@ -188,6 +190,21 @@ impl Exec {
         }
     }
 
+    /// A write with a zero time-to-live creates an entry whose deadline equals the current instant, where the
+    /// property constrains nothing (an implementation may or may not sweep it). The sweeper is parked at its gate
+    /// until the harness has moved the clock one nanosecond on, so that no sweep runs at that open instant.
+    fn hold_sweeper(&mut self) {
+        if self.sweeper_held || self.cfg.tick_us > 100_000 { return; }
+        self.inst.sweeper_gate.close();
+        let inst = &self.inst;
+        let _ = wait_for(inst, || if inst.sweeper_gate.waiting() >= 1 { Some(()) } else { None });
+        self.sweeper_held = true;
+    }
+
+    fn release_sweeper(&mut self) {
+        if self.sweeper_held { self.inst.sweeper_gate.open(); self.sweeper_held = false; }
+    }
+
     fn stat(&self, stats_type: StatsType) -> u64 { self.cache.stats_summary().get(&stats_type).unwrap_or(0) }
 
     fn wait_sketch_quiescent(&self) -> Check {
@@ -253,6 +270,13 @@ impl Exec {
 
     pub fn quiescent_checks(&mut self, blame: &str) -> Check {
         self.check_background()?;
+        // never rest at an instant that equals a held key's deadline: the property leaves that instant open
+        // (served or not, swept or not); one nanosecond later the key is plainly expired
+        if self.cfg.tick_us <= 100_000 && self.model.held.values().any(|entry| entry.deadline == Some(self.model.now)) && self.model.now.as_nanos() < (u64::MAX / 2 - 10) as u128 {
+            let target = self.model.now + Duration::from_nanos(1);
+            self.advance_to(target)?;
+        }
+        self.release_sweeper();
         let used = self.cache.total_weight_used();
         ensure!(used >= 0 && used <= self.cfg.max_weight, "C01", "C01/quiescent/out-of-bounds",
             "total_weight_used() = {} outside [0, {}] after op #{}", used, self.cfg.max_weight, self.op_index);
@@ -279,6 +303,9 @@ impl Exec {
         for entry in &snapshot.store {
             store.insert(entry.key as u8, (entry.id, entry.expire_after.map(since_epoch), entry.soft_deleted));
         }
+        // a key exactly at its deadline may or may not have been collected by a sweep: adopt
+        let at_deadline: Vec<u8> = self.model.held.iter().filter(|(k, entry)| entry.deadline == Some(self.model.now) && !store.contains_key(*k)).map(|(k, _)| *k).collect();
+        for k in at_deadline { self.model.remove(k); self.stats.swept_keys += 1; }
         for (k, entry) in &self.model.held {
             let expired = self.model.expired(entry);
             let lost_blame = if expired || matches!(blame, "C10" | "C04" | "C05") { blame } else { "C03" };
@@ -374,6 +401,29 @@ impl Exec {
     // -----------------------------------------------------------------------------------------
     // reads
 
+    /// now == deadline: the property constrains neither answer (before: must be served, past: must not)
+    fn at_deadline(&self, k: u8) -> bool {
+        self.model.held.get(&k).map(|entry| !entry.soft_deleted && entry.deadline == Some(self.model.now)).unwrap_or(false)
+    }
+
+    /// Compares a read result with the model. At the exact deadline instant either answer is accepted and adopted.
+    fn settle_read(&mut self, kind: ReadKind, k: u8, got: Option<u64>) -> Check {
+        if self.at_deadline(k) {
+            self.lookups += 1;
+            self.stats.reads += 1;
+            let value = self.model.held[&k].value;
+            match got {
+                Some(found) if found == value => { self.model.stats.hits += 1; self.stats.all_miss = false; }
+                None => { self.model.stats.misses += 1; self.stats.all_hit = false; }
+                Some(_) => return Err(self.read_failure(kind, k, got, Some(value))),
+            }
+            return Ok(());
+        }
+        let expected = self.expect_read(k);
+        if got != expected { return Err(self.read_failure(kind, k, got, expected)); }
+        Ok(())
+    }
+
     fn expect_read(&mut self, k: u8) -> Option<u64> {
         self.lookups += 1;
         self.stats.reads += 1;
@@ -416,7 +466,7 @@ impl Exec {
             ReadKind::Get | ReadKind::GetRef | ReadKind::MapGet | ReadKind::MapGetRef => {
                 let k = keys[0];
                 let key = keys64[0];
-                let expected = self.expect_read(k);
+                let expected_readable = self.model.readable(k) && !self.at_deadline(k);
                 let expected_deadline = self.model.held.get(&k).and_then(|entry| entry.deadline);
                 let got = match kind {
                     ReadKind::Get => self.call("get", |cache| cache.get(&key))?,
@@ -424,7 +474,7 @@ impl Exec {
                         let got = self.call("get_ref", |cache| cache.get_ref(&key).map(|reference| (*reference.key(), reference.value().value(), reference.value().expire_after())))?;
                         if let Some((ref_key, _, expiry)) = got {
                             ensure!(ref_key == key, "C02", "C02/foreign-key-ref", "get_ref({}) returned a reference to key {}", key, ref_key);
-                            if expected.is_some() {
+                            if expected_readable {
                                 ensure!(expiry.map(since_epoch) == expected_deadline, "C08", "C08/expiry-visible", "get_ref({}) shows expiry {:?}, expected {:?}", key, expiry.map(since_epoch), expected_deadline);
                             }
                         }
@@ -433,10 +483,9 @@ impl Exec {
                     ReadKind::MapGet => self.call("map_get", |cache| cache.map_get(&key, |value| value ^ 1))?.map(|value| value ^ 1),
                     _ => self.call("map_get_ref", |cache| cache.map_get_ref(&key, |stored| stored.value()))?,
                 };
-                if got != expected { return Err(self.read_failure(kind, k, got, expected)); }
+                self.settle_read(kind, k, got)?;
             }
             ReadKind::MultiGet => {
-                let expected: Vec<Option<u64>> = keys.iter().map(|k| self.expect_read(*k)).collect();
                 let got = self.call("multi_get", |cache| {
                     let refs: Vec<&u64> = keys64.iter().collect();
                     cache.multi_get(refs).into_iter().map(|(key, value)| (*key, value)).collect::<HashMap<u64, Option<u64>>>()
@@ -447,19 +496,17 @@ impl Exec {
                     // with duplicates the map keeps the last lookup; the state does not change in between
                     let value = got.get(&(*k as u64)).copied();
                     ensure!(value.is_some(), "C02", "C02/multi_get/shape", "multi_get({:?}) has no entry for key {}", keys, k);
-                    if value.unwrap() != expected[index] { return Err(self.read_failure(kind, *k, value.unwrap(), expected[index])); }
+                    let _ = index;
+                    self.settle_read(kind, *k, value.unwrap())?;
                 }
             }
             ReadKind::MultiGetIter | ReadKind::MultiGetMapIter => {
-                let expected: Vec<Option<u64>> = keys.iter().map(|k| self.expect_read(*k)).collect();
                 let got: Vec<Option<u64>> = self.call("multi_get_iterator", |cache| {
                     let refs: Vec<&u64> = keys64.iter().collect();
                     if kind == ReadKind::MultiGetIter { cache.multi_get_iterator(refs).collect() } else { cache.multi_get_map_iterator(refs, |value| value ^ 1).map(|value| value.map(|value| value ^ 1)).collect() }
                 })?;
                 ensure!(got.len() == keys.len(), "C02", "C02/iterator/shape", "{:?}({:?}) yielded {} items for {} keys", kind, keys, got.len(), keys.len());
-                for (index, k) in keys.iter().enumerate() {
-                    if got[index] != expected[index] { return Err(self.read_failure(kind, *k, got[index], expected[index])); }
-                }
+                for (index, k) in keys.iter().enumerate() { self.settle_read(kind, *k, got[index])?; }
             }
         }
         Ok(())
@@ -473,6 +520,7 @@ impl Exec {
         let key = k as u64;
         let ttl = match ttl { Some(sel) => match self.resolve_ttl(sel) { Some(ttl) => Some(ttl), None => return Ok(None) }, None => None };
         let weight = match w { Some(sel) => sel.resolve(self.cfg.max_weight), None => self.cfg.weight_fn(key, ttl.is_some()) };
+        if ttl == Some(Duration::ZERO) { self.hold_sweeper(); }
         let physical = self.model.held.get(&k).cloned();
         if let Some(entry) = &physical {
             if !entry.soft_deleted && self.model.expired(entry) && !self.policy.allow_put_on_expired_unswept {
@@ -480,6 +528,7 @@ impl Exec {
                 return Ok(None);
             }
         }
+        if self.at_deadline(k) { self.stats.adjusted_ops += 1; return Ok(None); }
         self.note_boundary(weight);
         if self.written_keys.contains(&k) { self.stats.puts_on_used_key += 1; }
         if self.ttl_keys_ever.contains(&k) && physical.is_none() { self.stats.reput_of_ttl_key += 1; }
@@ -502,11 +551,13 @@ impl Exec {
         if ttl.is_some() { self.ttl_keys_ever.insert(k); }
         let immediate = poll_once(&ack, &noop_waker()).map(St::from);
         match &physical {
-            Some(entry) if readable => {
-                ensure!(immediate == Some(St::RejExists), "C07", "C07/put-on-readable", "{} on a readable key answered {:?}, expected Rejected(KeyAlreadyExists) on the spot", what, immediate);
-                self.stats.rejected_exists += 1;
-                let _ = entry;
-                Ok(None)
+            Some(_) if readable => {
+                // normally answered on the spot; an implementation may also queue it and refuse it on the worker
+                match immediate {
+                    Some(St::RejExists) => { self.stats.rejected_exists += 1; Ok(None) }
+                    Some(other) => Err(Failure::new("C07", "C07/put-on-readable", format!("{} on a readable key answered {:?} on the spot, expected Rejected(KeyAlreadyExists)", what, other))),
+                    None => Ok(Some(PendingCmd { ack, cmd: Pending::Put { k, value, weight, ttl, issued_now: self.model.now } })),
+                }
             }
             Some(entry) if entry.soft_deleted => {
                 // deleted but not yet acknowledged: no property constrains the answer
@@ -545,6 +596,7 @@ impl Exec {
         let key = k as u64;
         let mut with_value = with_value;
         if !with_value && w.is_none() && *ttl_req == TtlReq::Keep { with_value = true; self.stats.adjusted_ops += 1; }
+        if self.at_deadline(k) { self.stats.adjusted_ops += 1; return Ok(None); }
         let physical = self.model.held.get(&k).cloned();
         let pending_put = self.pending_put_exists(k);
         if let Some(entry) = &physical {
@@ -555,6 +607,7 @@ impl Exec {
         }
         if physical.is_none() && !with_value { with_value = true; self.stats.adjusted_ops += 1; }
         let ttl = match ttl_req { TtlReq::Set(sel) => match self.resolve_ttl(sel) { Some(ttl) => Some(ttl), None => return Ok(None) }, _ => None };
+        if ttl == Some(Duration::ZERO) { self.hold_sweeper(); }
         let remove = *ttl_req == TtlReq::Remove;
         let explicit = w.as_ref().map(|sel| sel.resolve(self.cfg.max_weight));
         let computed = if with_value { Some(self.cfg.weight_fn(key, ttl.is_some())) } else { None };
@@ -672,6 +725,11 @@ impl Exec {
                         None => return Err(Failure::new("C08", "C08/in-place/entry-vanished", format!("after {} the key is not in the store", what))),
                         Some((_, expiry, _)) => ensure!(expiry.map(since_epoch) == expected_deadline, "C08", "C08/in-place/expiry", "after {} returned the expiry is {:?}, expected {:?}", what, expiry.map(since_epoch), expected_deadline),
                     }
+                    if self.at_deadline(k) {
+                        let got = self.call("get", |cache| cache.get(&key))?;
+                        self.settle_read(ReadKind::Get, k, got)?;
+                        return self.finish_in_place(ack, k, incarnation, predicted, explicit.is_some(), over_limit, entry.weight, &what);
+                    }
                     self.lookups += 1;
                     self.model.stats.hits += 1;
                     self.stats.reads += 1;
@@ -692,21 +750,26 @@ impl Exec {
                         }
                     }
                 }
-                match predicted {
-                    Some(weight) => {
-                        if weight < entry.weight { self.stats.weight_decreases += 1; }
-                        Ok(Some(PendingCmd { ack, cmd: Pending::UpdateWeight { k, incarnation, weight, explicit: explicit.is_some(), over_limit } }))
-                    }
-                    None => {
-                        let immediate = poll_once(&ack, &noop_waker()).map(St::from);
-                        ensure!(immediate == Some(St::Accepted) || immediate.is_none(), "C08", "C08/in-place/status", "{} answered {:?}", what, immediate);
-                        if immediate.is_none() {
-                            // the implementation queued something we did not predict; treat it as a weight update to be observed
-                            return Ok(Some(PendingCmd { ack, cmd: Pending::UpdateWeight { k, incarnation, weight: entry.weight, explicit: false, over_limit: false } }));
-                        }
-                        Ok(None)
-                    }
+                self.finish_in_place(ack, k, incarnation, predicted, explicit.is_some(), over_limit, entry.weight, &what)
+            }
+        }
+    }
+
+    #[allow(clippy::too_many_arguments)]
+    fn finish_in_place(&mut self, ack: Arc<CommandAcknowledgement>, k: u8, incarnation: u32, predicted: Option<i64>, explicit: bool, over_limit: bool, old_weight: i64, what: &str) -> Check<Option<PendingCmd>> {
+        match predicted {
+            Some(weight) => {
+                if weight < old_weight { self.stats.weight_decreases += 1; }
+                Ok(Some(PendingCmd { ack, cmd: Pending::UpdateWeight { k, incarnation, weight, explicit, over_limit } }))
+            }
+            None => {
+                let immediate = poll_once(&ack, &noop_waker()).map(St::from);
+                ensure!(immediate == Some(St::Accepted) || immediate.is_none(), "C08", "C08/in-place/status", "{} answered {:?}", what, immediate);
+                if immediate.is_none() {
+                    // the implementation queued something we did not predict; treat it as a weight update to be observed
+                    return Ok(Some(PendingCmd { ack, cmd: Pending::UpdateWeight { k, incarnation, weight: old_weight, explicit: false, over_limit: false } }));
                 }
+                Ok(None)
             }
         }
     }
